@@ -39,13 +39,13 @@ def make_tree(bits):
     return [
         Node("s", ["sv"], subs=[
             Node("a", ["ad", "a-d"], disabled=a_disabled, subs=[Node("x", ["xx"], default=x_default), Node("y")]),
-            Node("l", default=l_default, subs=[Node("u", ["uu"]), Node("w")]),      # a NAMED (possibly default) sub-command with sub-commands of its own
+            Node("l", default=l_default, subs=[Node("u", ["uu"]), Node("w", default=True)]),      # ... one of them its own default: entered only when l is NAMED (one implicit step, no chains)      # a NAMED (possibly default) sub-command with sub-commands of its own
             Node("m", default=m_default),
             Node("n", default=True, anonymous=True, subs=[Node("a")]),      # an anonymous sub-command: cannot be named
         ]),
         Node("c", subs=[Node("p", default=True, anonymous=True), Node("q", anonymous=True)]),      # all sub-commands anonymous, one of them the default
         Node("t-u"),                                                        # a hyphenated command name
-        Node("r", default=r_default or r_anon, anonymous=r_anon),
+        Node("r", default=r_default or r_anon, anonymous=r_anon, subs=[Node("rr", default=True)]),      # the application default has a default sub-command of its own
         Node("h", hidden=h_hidden, subs=[Node("a")]),
         Node("d", disabled=d_disabled),
         Node("k", ["s", "kk"]),                                             # an alias that is the NAME of a command registered earlier: a command's own name always identifies that command
